@@ -1,6 +1,7 @@
 import CollectionsC.Driver.Cmd
 import CollectionsC.Spec.StrMapSpec
 import CollectionsC.Model.TST
+import CollectionsC.Model.PTST
 /-! Line-protocol driver of the TST table: same text as `harness/shim_tsttable.c`.
 Keys are lowercase hex of their bytes (`-` = empty string). -/
 -- container: tsttable
@@ -18,6 +19,9 @@ structure Sess where
   cursor : Option StrMap.Cursor := none
   usedEmpty : Bool := false             -- the empty key was used (X5): stored keys may differ from paths
   cb     : String := ""                 -- exact callback order of the current op (phys section)
+  /-- the pointer-level model (Model/PTST.lean), run alongside: the dump is printed from its heap -/
+  pt  : PTST.PT := {}
+  pit : Option PTST.PIter := none
   sparse : Bool := false                -- obs=sparse session: content only on `observe`
   full   : Bool := false                -- the current op is `observe`
 
@@ -28,7 +32,9 @@ def hexVal (c : Char) : Nat := if c.toNat ≤ 57 then c.toNat - 48 else c.toNat 
 def parseHex : List Char → Key
   | a :: b :: rest => (hexVal a * 16 + hexVal b) :: parseHex rest
   | _ => []
-def parseKey (s : String) : Key := if s == "-" then [] else parseHex s.toList
+def parseKey (s : String) : Key :=
+  let cs := match s.toList with | 'x' :: rest => rest | cs => cs   -- optional prefix `x`
+  if cs == ['-'] then [] else parseHex cs
 
 def keyLt : Key → Key → Bool
   | [], [] => false
@@ -73,20 +79,45 @@ def obsS (s : Sess) : String :=
   | some sp =>
     let abs := s.univ.filterMap fun k => (sp.get k).map fun v => (k, v)
     s!"abs={fmtPairs abs} enum={fmtPairs (sortPairs sp.items)} size={sp.size}"
+/-- the trie as the pointer-level heap holds it: `(char#id^parent-id;entry;left mid right)` -/
+def fmtPT (h : PTST.Heap) : Nat → Nat → String
+  | 0, _ => "!"
+  | f + 1, n =>
+    if n = 0 then "." else
+    let nd := h.get n
+    let ds := match nd.data with | some e => s!"{fmtKey e.1}={e.2}" | none => "-"
+    s!"({hex2 nd.c}#{n}^{nd.parent};{ds};{fmtPT h f nd.left}{fmtPT h f nd.mid}{fmtPT h f nd.right})"
+
 def phys (s : Sess) : String :=
   match s.model with
   | none => "-"
   | some t =>
+    let pc := (s.pit.map (·.cur)).getD 0
+    let pn := (s.pit.map (·.next)).getD 0
     let itS := match s.it with
       | none => ""
-      | some it => s!" it=cur:{fmtPath it.cur},next:{fmtPath it.next},adv:{if it.adv then 1 else 0}" ++
+      | some it => s!" it=cur:{fmtPath it.cur}#{pc},next:{fmtPath it.next}#{pn},adv:{if it.adv then 1 else 0}" ++
           (if it.adv then s!",ns:{it.nextStat.code}" else "")
     let ord := if s.sparse && !s.full then "" else s!" ord={fmtPairs (iterAll t {}).1}"
-    s!"size={t.size} tree={fmtNode t.root}{ord}{s.cb}{itS}"
+    s!"size={s.pt.size} tree={fmtPT s.pt.heap (s.pt.fresh + 1) s.pt.root}{ord}{s.cb}{itS}"
+/-- the pointer-level heap spans the inductive trie, holds no other block, and the two iterators point to
+the same nodes -/
+def ptAgrees (s : Sess) : Bool :=
+  match s.model with
+  | none => true
+  | some t =>
+    PTST.toNode s.pt == t.root && s.pt.size == t.size && s.pt.heap.count == t.root.nodes &&
+    (match s.it, s.pit with
+     | some it, some pi =>
+       let pth (n : Nat) : Option Path := if n = 0 then none else PTST.pathOf s.pt.heap (s.pt.fresh + 1) n []
+       pth pi.cur == it.cur && pth pi.next == it.next && pi.adv == it.adv
+     | none, _ => true
+     | some _, none => false)
+
 def inv (s : Sess) : Bool :=
   match s.model with
   | none => true
-  | some t => decide (t.Inv (cmpOf s.cmpK)) && (s.usedEmpty || decide t.root.KeysOk)
+  | some t => decide (t.Inv (cmpOf s.cmpK)) && (s.usedEmpty || decide t.root.KeysOk) && ptAgrees s
 
 def lines (hdS hdM : String) (s : Sess) : String × String :=
   (s!"S {hdS} {obsS s}",
@@ -109,7 +140,7 @@ def step (s0 : Sess) (c : Cmd) : Sess × String × String :=
   | "new" | "new_default" =>
     let (st, t, m) := Table.new (if c.op == "new" then .conf else .libc) m
     let (sst, sp) := if c.fired > 0 then (Stat.errAlloc, none) else (Stat.ok, some StrMap.empty)
-    let s' : Sess := { s with model := t, spec := sp, mem := m, it := none, cursor := none,
+    let s' : Sess := { s with model := t, spec := sp, mem := m, it := none, cursor := none, pt := {}, pit := none,
                               sparse := c.str "obs" == some "sparse",
                               cmpK := if c.op == "new" then (c.str "cmp").getD "s" else "s" }
     fin s' (fmtStat sst) (fmtStat st)
@@ -121,7 +152,8 @@ def step (s0 : Sess) (c : Cmd) : Sess × String × String :=
     | "add", some _ =>
       let (st, t', m) := t.add cmp key v m
       let r := sp.step { refused := c.fired > 0 } (.add key v [])
-      fin { s with model := some t', spec := some r.2, mem := m, it := none, cursor := none }
+      fin { s with model := some t', spec := some r.2, mem := m, it := none, cursor := none, pit := none,
+                   pt := PTST.add cmp s.pt key v (st == .ok) }
         (fmtStat (r.1.st.getD .ok)) (fmtStat st)
     | "get", some _ =>
       let (st, out) := t.get cmp key
@@ -137,11 +169,13 @@ def step (s0 : Sess) (c : Cmd) : Sess × String × String :=
       let h (st : Stat) (o : Option Nat) := match o with
         | some v => if c.op == "remove" then s!"{fmtStat st} out={v}" else fmtStat st
         | none => fmtStat st
-      fin { s with model := some t', spec := some r.2, mem := m, it := none, cursor := none }
+      fin { s with model := some t', spec := some r.2, mem := m, it := none, cursor := none, pit := none,
+                   pt := PTST.remove cmp s.pt key }
         (h (r.1.st.getD .ok) r.1.val) (h st out)
     | "remove_all", _ =>
       let (t', m) := t.removeAll m
-      fin { s with model := some t', spec := some sp.removeAll, mem := m, it := none, cursor := none } "st=-" "st=-"
+      fin { s with model := some t', spec := some sp.removeAll, mem := m, it := none, cursor := none, pit := none,
+                   pt := PTST.removeAll s.pt } "st=-" "st=-"
     | "observe", _ => fin { s with full := true } "st=-" "st=-"
     | "size", _ =>
       fin s s!"st=- out={sp.size}" s!"st=- out={t.size}"
@@ -157,10 +191,12 @@ def step (s0 : Sess) (c : Cmd) : Sess × String × String :=
       fin { s with mem := m, cb := s!" cbord={fmtList vs}" }
         s!"st=- cb={fmtList (srt (sp.items.map (·.2)))}" s!"st=- cb={fmtList (srt vs)}"
     | "it_new", _ =>
-      fin { s with it := some (iterInit t), cursor := some (StrMap.cursorNew sp) } "st=-" "st=-"
+      fin { s with it := some (iterInit t), cursor := some (StrMap.cursorNew sp), pit := some (PTST.iterInit s.pt) }
+        "st=-" "st=-"
     | "destroy", _ =>
       let m := t.destroy m
-      fin { s with model := none, spec := none, mem := m, it := none, cursor := none } "st=-" "st=-"
+      fin { s with model := none, spec := none, mem := m, it := none, cursor := none, pit := none, pt := {} }
+        "st=-" "st=-"
     | op, _ =>
       match s.it, s.cursor with
       | some it, some cu =>
@@ -174,14 +210,19 @@ def step (s0 : Sess) (c : Cmd) : Sess × String × String :=
           let hS := match sout with
             | some e => s!"{fmtStat sst} out={fmtKey e.1}:{e.2}"
             | none => if legal then fmtStat sst else s!"{fmtStat sst} out=?not-a-pending-key"
-          fin { s with it := some r.it, cursor := some cu', mem := r.mem } hS hM
+          fin { s with it := some r.it, cursor := some cu', mem := r.mem,
+                       pit := s.pit.map fun pi => (PTST.iterNext s.pt pi).2.2 } hS hM
         | "it_remove" | "it_remove_noout" =>
           let (st, out, t', it', m) := iterRemove t it (op == "it_remove") m
           let (sst, sout, sp', cu') := StrMap.cursorRemove sp cu
           let h (st : Stat) (o : Option Nat) := match o with
             | some v => if op == "it_remove" && st == .ok then s!"{fmtStat st} out={v}" else fmtStat st
             | none => fmtStat st
-          fin { s with model := some t', spec := some sp', it := some it', cursor := some cu', mem := m }
+          let pr := match s.pit with
+            | some pi => let r := PTST.iterRemove s.pt pi; (r.1, some r.2)
+            | none => (s.pt, none)
+          fin { s with model := some t', spec := some sp', it := some it', cursor := some cu', mem := m,
+                       pt := pr.1, pit := pr.2 }
             (h sst sout) (h st out)
         | _ => fin s "st=- badop" "st=- badop"
       | _, _ =>
